@@ -427,13 +427,24 @@ static jv *obs_key(const char *key, jv *call, long r, jv *extra)
   int p = child_of(h);
   if (p < 0) return j_mkstr("nochild");
   struct sk_proc *c = &K->proc[p];
-  if (!strcmp(key, "cw") || !strcmp(key, "cx") || !strcmp(key, "pp")) {
+  if (!strcmp(key, "cw") || !strcmp(key, "cx") || !strcmp(key, "pp") || !strcmp(key, "pnb")) {
     nord = 0;
-    jv *cw = j_mkarr(), *cx = j_mkarr(), *pp = j_mkarr();
+    jv *cw = j_mkarr(), *cx = j_mkarr(), *pp = j_mkarr(), *pf = j_mkarr();
     for (int i = 0; i < 3; i++) j_push(cw, fd_token(c, i, 1));
     for (int i = 3; i < SK_MAXFD; i++) if (c->fd[i].ofd >= 0) j_push(cx, fd_token(c, i, 1));
-    for (int i = 0; i < SK_MAXFD; i++) if (K->proc[0].fd[i].ofd >= 0 && K->proc[0].fd[i].owner == 1) j_push(pp, fd_token(&K->proc[0], i, 0));
+    for (int i = 0; i < SK_MAXFD; i++) if (K->proc[0].fd[i].ofd >= 0 && K->proc[0].fd[i].owner == 1) {
+      jv *t = fd_token(&K->proc[0], i, 0);
+      j_push(pp, t);
+      char b[320]; snprintf(b, sizeof b, "%s|%d", t->s, K->ofd[K->proc[0].fd[i].ofd].nonblock ? 1 : 0);
+      j_push(pf, j_mkstr(b));
+    }
     qsort(pp->a, (size_t) pp->n, sizeof(jv *), cmpord);
+    qsort(pf->a, (size_t) pf->n, sizeof(jv *), cmpord);
+    if (!strcmp(key, "pnb")) {   /* whether each of the parent's ends (same order as pp) is in nonblocking mode */
+      jv *nb = j_mkarr();
+      for (int i = 0; i < pf->n; i++) j_push(nb, j_mkint(pf->a[i]->s[strlen(pf->a[i]->s) - 1] == '1'));
+      return nb;
+    }
     return key[1] == 'w' ? cw : key[1] == 'x' ? cx : pp;
   }
   if (!strcmp(key, "cnb")) return j_mkint(c->exec_fds_nonblock);
@@ -474,7 +485,7 @@ static jv *obs_all(jv *call, long r, jv *extra)
     for (int i = 0; ak[i]; i++) j_put(o, ak[i], obs_key(ak[i], call, r, extra));
   }
   if (!strcmp(fn, "start") && r > 0) {
-    static const char *sk[] = { "cw", "cx", "pp", "cnb", "cexec", "cmask", "cdisp", "ccwd", "cprog", "cargv", "cenv", "pmask", "pcwd", "created", NULL };
+    static const char *sk[] = { "cw", "cx", "pp", "pnb", "cnb", "cexec", "cmask", "cdisp", "ccwd", "cprog", "cargv", "cenv", "pmask", "pcwd", "created", NULL };
     for (int i = 0; sk[i]; i++) j_put(o, sk[i], obs_key(sk[i], call, r, extra));
   }
   return o;
